@@ -246,10 +246,9 @@ example : (2 : ℂ) ≠ 0 := by norm_num
 example : 0 < 16 := by norm_num
 
 /-
-Not proved here (named in DESIGN §7/§8): `C02_global_order` (dt^p decay of the global error —
-follows on paper from the order conditions, Cox & Matthews 2002, Hochbruck & Ostermann 2005) and
-`C02_contour_tail` (the aliasing tail Σ_{m≥1} a_{mM} r^{mM} of the trapezoidal rule for the entire
-φ-type functions; `C02_contour_exact_poly` covers the degree-<M Taylor part).
+Continued in `Properties/C02_accuracy.lean` (the aliasing tail of the contour rule: stored coefficient = dt·φ-combination
+up to an explicit, stiffness-uniform error) and `Properties/C02_order.lean` (order p: proved on the linear test family for
+p = 1..4 and for Lipschitz nonlinearities for p = 1; what is still missing of `C02_global_order` is stated there).
 -/
 
 end Exponax
